@@ -2,6 +2,7 @@ package sym
 
 import (
 	"fmt"
+	"os"
 	"go/types"
 	"sort"
 
@@ -151,17 +152,30 @@ func (s *scheduler) yield(fr *frame, what string) {
 		}
 		return
 	}
+	if schedTrace {
+		ids := ""
+		for _, g := range rs {
+			ids += fmt.Sprintf(" g%d", g.id)
+		}
+		fmt.Fprintf(os.Stderr, "SCHED %p pos=%d yield %s cur=g%d runnable=%s sw=%d\n", m, m.ex.pos, what, cur.id, ids, s.switches)
+	}
 	// prefer continuing the current goroutine as alternative 0
 	sort.SliceStable(rs, func(i, j int) bool { return rs[i] == cur && rs[j] != cur })
 	k := 0
-	if s.m.Opts.MaxSwitches == 0 || s.switches < s.m.Opts.MaxSwitches || !containsG(rs, cur) {
+	curRunnable := containsG(rs, cur)
+	// preemption bounding: switching away from a goroutine that could go on
+	// is a preemption; when the bound is used up the current goroutine
+	// continues until it blocks or exits
+	if s.m.Opts.MaxSwitches == 0 || s.switches < s.m.Opts.MaxSwitches || !curRunnable {
 		k = m.choice(len(rs), "schedule at "+what)
 	}
 	next := rs[k]
 	if next == cur {
 		return
 	}
-	s.switches++
+	if curRunnable {
+		s.switches++
+	}
 	s.switchTo(cur, next)
 }
 
@@ -384,6 +398,10 @@ func (m *Machine) newChan(n int) *Chan {
 }
 
 func (m *Machine) chanNote(ch *Chan) {
+	if m.initing > 0 && m.sched != nil {
+		// never interact with the schedule of the path during an initialiser
+		return
+	}
 	if m.mergeDepth > 0 {
 		panic(pathEnd{kind: endAbortMerge, msg: "channel operation inside merged call"})
 	}
@@ -474,6 +492,9 @@ func (m *Machine) tryRecv(s *scheduler, ch *Chan, et types.Type) (v value, ok bo
 
 func (m *Machine) chanSend(fr *frame, ch *Chan, v value) {
 	m.chanNote(ch)
+	if m.initing > 0 {
+		m.unsupported("channel communication during package initialisation")
+	}
 	s := m.schedFor(fr)
 	s.yield(fr, "chan send")
 	if ch == nil {
@@ -497,6 +518,9 @@ func (m *Machine) chanSend(fr *frame, ch *Chan, v value) {
 
 func (m *Machine) chanRecv(fr *frame, ch *Chan, et types.Type) (value, bool) {
 	m.chanNote(ch)
+	if m.initing > 0 {
+		m.unsupported("channel communication during package initialisation")
+	}
 	s := m.schedFor(fr)
 	s.yield(fr, "chan receive")
 	if ch == nil {
@@ -524,6 +548,11 @@ func (m *Machine) chanClose(fr *frame, ch *Chan) {
 	if ch == nil {
 		m.goPanic("close of nil channel")
 	}
+	if m.initing > 0 {
+		// package initialisers run outside of the schedule
+		ch.closed = true
+		return
+	}
 	s := m.schedFor(fr)
 	s.yield(fr, "chan close")
 	if ch.closed {
@@ -543,6 +572,9 @@ func (m *Machine) chanClose(fr *frame, ch *Chan) {
 }
 
 func (m *Machine) selectStmt(fr *frame, instr *ssa.Select) value {
+	if m.initing > 0 {
+		m.unsupported("select during package initialisation")
+	}
 	s := m.schedFor(fr)
 	s.yield(fr, "select")
 	type cs struct {
@@ -630,3 +662,5 @@ func (m *Machine) selectStmt(fr *frame, instr *ssa.Select) value {
 	}
 	return result(k, true, g.mailbox)
 }
+
+var schedTrace = os.Getenv("GOSYM_SCHEDTRACE") != ""
